@@ -266,6 +266,37 @@ fn check_base(e: &mut Env10, argv: &[Tok], only: Option<(usize, &str)>, ctx: &mu
                     let cmd_left = argv[..pos].iter().any(|x| x.utf8().map_or(false, |s| t.cmds.iter().any(|c| c == s)));
                     if is_version {
                         (None, None)
+                    } else if cmd_left && e.u.family == "adjacent-command" && {
+                        // an adjacent command owns the items of its own parser (`-x`, once)
+                        // that follow its name directly: help requested there describes the
+                        // command - provided everything to the left was claimed (one `-v`
+                        // by the top level, whole command blocks)
+                        let (mut inside, mut x_seen, mut clean) = (false, false, true);
+                        // (a word in front of a command name keeps the command from being
+                        // entered: such lines are left to the weaker clause)
+                        let t_has_v = t.flag_shorts.contains(&'v');
+                        let mut top_seen: Vec<&[u8]> = vec![];
+                        for t in &argv[..pos] {
+                            let b: &[u8] = &t.0;
+                            if b == b"cmd" {
+                                inside = true;
+                                x_seen = false;
+                            } else if inside && b == b"-x" && !x_seen {
+                                x_seen = true;
+                            } else if b == b"-v" && t_has_v && !top_seen.contains(&b) {
+                                inside = false;
+                                top_seen.push(b);
+                            } else {
+                                clean = false;
+                            }
+                        }
+                        clean && inside
+                    } {
+                        let key = (vec![0usize], "--help".to_string());
+                        let p = e.p;
+                        let exp = e.help_cache.entry(key).or_insert_with(|| run(p, &toks(&["cmd", "--help"]))).clone();
+                        ctx.count("requests-inside-an-adjacent-command");
+                        (Some(vec![0]), Some(exp))
                     } else if cmd_left {
                         (None, Some(Outcome::Stdout { text: String::new(), full: false }))
                     } else {
@@ -281,7 +312,16 @@ fn check_base(e: &mut Env10, argv: &[Tok], only: Option<(usize, &str)>, ctx: &mu
                 // version not configured at the owning level: an ordinary unknown flag
                 (None, Outcome::Stderr(t)) => !t.trim().is_empty(),
                 (None, _) => false,
-                (Some(Outcome::Stdout { text, .. }), Outcome::Stdout { text: t2, .. }) => text.is_empty() || text == t2,
+                // the reference text itself must be the command's help (its usage line starts
+                // with the command name, it lists the command's own item and no commands)
+                (Some(Outcome::Stdout { text, .. }), _) if e.u.family == "adjacent-command" && path.as_ref().map_or(false, |p| !p.is_empty()) && !(text.starts_with("Usage: cmd ") && text.contains("-x") && !text.contains("COMMAND")) => false,
+                (Some(Outcome::Stdout { text, .. }), Outcome::Stdout { text: t2, .. }) => {
+                    // chained adjacent commands: the usage line lists every command entered so
+                    // far (`Usage: cmd cmd [-x]`), the property only asks that the help is
+                    // the command's - the repeated path is not held against it
+                    let t2n = if e.u.family == "adjacent-command" { collapse_path(t2) } else { t2.clone() };
+                    text.is_empty() || *text == t2n
+                }
                 _ => false,
             };
             if ok {
@@ -325,6 +365,14 @@ fn check_base(e: &mut Env10, argv: &[Tok], only: Option<(usize, &str)>, ctx: &mu
             });
         }
     }
+}
+
+fn collapse_path(t: &str) -> String {
+    let mut t = t.to_string();
+    while t.starts_with("Usage: cmd cmd ") {
+        t = t.replacen("Usage: cmd cmd ", "Usage: cmd ", 1);
+    }
+    t
 }
 
 fn with_versions(mut l: Level, mode: usize) -> Level {
@@ -413,7 +461,7 @@ impl Check for C10 {
         run_u(&u, unit, Some((&base, pos, &token)), ctx);
     }
     fn rule(&self) -> String {
-        "definitions = conventional levels (<=2 named items x all tails incl. command tails of depth 3, version configured nowhere / at the top / everywhere), command trees of C08 (every fifth with custom - non-ASCII - help names on all levels, every seventh on the sub-commands only), the general shape family and adjacent group shapes; base vectors = every vector of the token tree (valid, invalid, incomplete); the help token (--help, -h, custom names) and the version token (--version, -V) are inserted as an item of their own at EVERY position left of the first `--`; oracle: outcome is stdout and equals, byte for byte, the help/version text of the level owning that position (reference level finder: deepest command whose name was the first unclaimed item), version is an ordinary unknown flag where not configured; for general shapes the level is judged while no command name precedes the position; evaluation = one run; non-trivial = judged insertion".into()
+        "definitions = conventional levels (<=2 named items x all tails incl. command tails of depth 3, version configured nowhere / at the top / everywhere), command trees of C08 (every fifth with custom - non-ASCII - help names on all levels, every seventh on the sub-commands only), the general shape family and adjacent group shapes; base vectors = every vector of the token tree (valid, invalid, incomplete); the help token (--help, -h, custom names) and the version token (--version, -V) are inserted as an item of their own at EVERY position left of the first `--`; oracle: outcome is stdout and equals, byte for byte, the help/version text of the level owning that position (reference level finder: deepest command whose name was the first unclaimed item), version is an ordinary unknown flag where not configured; for general shapes the level is judged while no command name precedes the position; for adjacent commands a position directly behind the command name and its own items belongs to the command; evaluation = one run; non-trivial = judged insertion".into()
     }
     fn bounds(&self, tier: Tier) -> Value {
         json!({"base_vector_length": tier.pick("3 (1 item), 2 (2 items, trees, shapes), 3 (groups)", "4 / 3 / 4"), "insert_positions": "all, left of `--`"})
